@@ -2,7 +2,5 @@ package sim
 
 // Scenario payload stubs (replaced as scenarios are implemented).
 
-type ConcCase struct{}
-type BuildHCase struct{}
 type InteropCase struct{}
 type LifeCase struct{}
